@@ -38,7 +38,7 @@ AGG = ['count', 'count_star', 'sum', 'avg', 'min', 'max', 'var_samp', 'var_pop',
 CODE = {n: i for i, n in enumerate(AGG)}
 NUMERIC = ['sum', 'avg', 'var_samp', 'var_pop', 'stddev_samp', 'stddev_pop', 'skewness', 'kurtosis', 'sumDistinct']
 ORDERED = ['collect_list', 'first', 'first_ignorenulls', 'last', 'last_ignorenulls']
-DESCRIBE_COLS = [K, V, W]
+DESCRIBE_COLS = [K, S, V, W]
 
 RULE = ('cases (mode, key columns, pivot, aggregates, partitions of rows): tables of 0..6 rows over nullable columns '
         'k:int, s:string, v:int, w:double (doubles are small dyadic rationals so that every sum of them is exact in any '
@@ -123,6 +123,8 @@ def _build(aggs):
 def _parse(text, col):
     if text is None:
         return None
+    if col == S:
+        return text
     return int(text) if col in (K, V) and 'n' not in text and '.' not in text and 'e' not in text else float(text)
 
 
@@ -530,6 +532,52 @@ def modes(rng):
     return out
 
 
+def systematic_cases():
+    """Deterministic cases at the head of the stream (both tiers, every seed).
+
+    (a) rollup / cube over two key columns with the order-keeping / collecting aggregates, on tables where the group met
+        FIRST has only nulls in the collected column, a second group shares two subtotals with it (same k) and a third
+        group shares only the grand total (other k): aliasing between subtotal accumulators must show in the list
+        contents of some subtotal.  All assignments of the rows to 1..3 partitions.
+    (b) min / max / count over the STRING column (agg, rollup / cube subtotals, describe, summary) where the extreme value
+        is not in the first partial: the group is spread over >= 2 partitions, or >= 2 groups lie under one subtotal, and
+        the minimum / maximum sits in the second / last partial."""
+    out = []
+    coll = [(CODE[n], [c], 0) for c in (V, W) for n in ('collect_list', 'collect_set', 'first', 'first_ignorenulls',
+                                                         'last', 'last_ignorenulls', 'count')]
+    tables = [
+        [(1, 'a', None, None), (1, 'b', 3, 0.5), (2, 'a', 5, 1.5)],
+        [(1, 'a', None, None), (1, 'b', 3, 0.5), (2, 'b', 5, 1.5), (1, 'b', 7, 2.0)],
+        [(None, 'a', None, None), (None, None, 3, 0.5), (2, None, 5, 1.5), (2, 'a', 3, 0.5)],
+        [(1, 'a', None, None), (1, 'a', None, None), (1, 'b', 3, 0.5), (2, 'c', 5, 1.5)],
+    ]
+    for ti, rows in enumerate(tables):
+        n = len(rows)
+        for mode, keys in (('rollup', [K, S]), ('cube', [K, S])) + ((('rollup', [S, K]), ('cube', [S, K])) if ti == 0 else ()):
+            three = [a for a in all_assignments(n, 3) if len(set(a)) == 3]
+            assigns = [(0,) * n] + list(all_assignments(n, 2))[1:-1] + three[::max(1, len(three) // 8)]
+            for a in assigns:
+                out.append((mode, keys, None, coll, split(rows, a, max(a) + 1)))
+    strs = [(CODE['min'], [S], 0), (CODE['max'], [S], 0), (CODE['count'], [S], 0), (CODE['min'], [V], 0)]
+    stables = [
+        [(1, 'b', 1, 0.5), (1, 'a', 2, 1.5), (1, 'c', 3, 0.5)],              # min in the 2nd, max in the last
+        [(1, 'b', 1, 0.5), (2, 'a', 2, 1.5), (2, 'c', 3, 0.5), (1, None, 4, 1.0)],   # extremes in the 2nd group
+        [(1, None, 1, 0.5), (1, 'c', 2, 1.5), (2, 'b', 3, 0.5), (2, 'a', 0, 1.0)],
+        [(None, 'bb', 1, 0.5), (None, 'b', 2, 1.5), (3, 'ba', 3, 0.5), (3, 'a', 3, 1.0)],
+    ]
+    for rows in stables:
+        n = len(rows)
+        parts_list = [[rows], [[r] for r in rows], [rows[:1], rows[1:]], [rows[:1], [], rows[1:]],
+                      [rows[:2], rows[2:]], [rows[:-1], rows[-1:]]]
+        for parts in parts_list:
+            for mode, keys in (('groupBy', [K]), ('groupBy', []), ('rollup', [K]), ('cube', [K, V]), ('rollup', [K, W])):
+                out.append((mode, keys, None, strs, parts))
+            out.append(('groupBy', [K], (W, [0.5, 1.5]), strs[:3], parts) if False else ('groupBy', [], None, strs[:2], parts))
+            out.append(('describe', [], None, [], parts))
+            out.append(('summary', [], None, [], parts))
+    return out
+
+
 def load_corpus():
     import glob
     import json
@@ -562,6 +610,7 @@ def generate(rng, tier):
     ]
     cases.extend(seeds)
     cases.extend(load_corpus())
+    cases.extend(systematic_cases())
 
     # (1) exhaustive assignments to <= 3 partitions: tables of 1..4 rows (3^n assignments each, all of them),
     #     with all aggregates together, cycling through the modes
